@@ -20,9 +20,9 @@ var raceFn = regexp.MustCompile(`(?m)^  (grits/\S+)\(\)\s*$`)
 func init() {
 	harness.Register(&harness.Check{
 		ID: "C13", Level: "exploration",
-		Rule:        "every accepted closed driver/example program x 3 execution modes x monitor off/on x GOMAXPROCS in {1,4,16}, each run R times (R=2 quick, R=8 thorough) through the same API sequence a driver uses (InitializeProcesses, ProcessCount, DeadProcessCount, TimeTaken, StopMonitor) in an UNINSTRUMENTED build compiled with -race, free-running (not under the cooperative scheduler, whose hand-offs would hide races); oracle: the Go race detector reports nothing; schedules are NOT enumerated here (see assumptions); distinct_nontrivial = (program, mode, monitor, GOMAXPROCS) combinations that ran to completion",
+		Rule:        "every accepted closed driver/example program x 3 execution modes x monitor off/on x GOMAXPROCS in {1,4,16}, each run R times (R=2 quick, R=8 thorough) through the same API sequence a driver uses (InitializeProcesses, ProcessCount, DeadProcessCount, TimeTaken, StopMonitor) in an UNINSTRUMENTED build compiled with -race, free-running (not under the cooperative scheduler, whose hand-offs would hide races); oracle: the Go race detector reports nothing; additionally every program together with its successor in the corpus, both parsed, typechecked and executed at the same time by two drivers in one process (what the web server does with two requests; configuration rotating over the 6, GOMAXPROCS in {4,16}); schedules are NOT enumerated here (see assumptions); distinct_nontrivial = (program, mode, monitor, GOMAXPROCS) combinations that ran to completion",
 		Assumptions: []string{"the race detector's happens-before analysis generalises one run to all schedules with the same synchronisation order; C03 establishes by exploration that this order is schedule independent for these programs; this is an argument, not a proof, hence level exploration", "separate free-running pass as prescribed for cooperative-scheduler model checking"},
-		Cases: func(c *harness.Ctx) int { return len(Corpus(c)) * len(explore.AllConfigs) },
+		Cases: func(c *harness.Ctx) int { return len(Corpus(c))*len(explore.AllConfigs) + len(Corpus(c)) },
 		Run: func(c *harness.Ctx, idx int, r *harness.Rec) {
 			bin := c.Extra["racebin"]
 			if bin == "" {
@@ -31,6 +31,10 @@ func init() {
 				return
 			}
 			progs := Corpus(c)
+			if idx >= len(progs)*len(explore.AllConfigs) {
+				c13Concurrent(c, bin, idx-len(progs)*len(explore.AllConfigs), r)
+				return
+			}
 			p := progs[idx/len(explore.AllConfigs)]
 			cfg := explore.AllConfigs[idx%len(explore.AllConfigs)]
 			if len(p.Text) > 2500 && !c.Thorough() {
@@ -95,4 +99,72 @@ func init() {
 			}
 		},
 	})
+}
+
+// c13Concurrent: program j and its successor in the corpus, each driven by its own goroutine in one
+// process (parse, typecheck, execute, the API calls after completion), as two web requests would be.
+func c13Concurrent(c *harness.Ctx, bin string, j int, r *harness.Rec) {
+	progs := Corpus(c)
+	p, q := progs[j], progs[(j+1)%len(progs)]
+	cfg := explore.AllConfigs[j%len(explore.AllConfigs)]
+	if (len(p.Text) > 2500 || len(q.Text) > 2500) && !c.Thorough() {
+		r.Note("large example skipped in the quick tier")
+		return
+	}
+	f1 := filepath.Join(c.Scratch, fmt.Sprintf("c13_pair_%d_a.grits", j))
+	f2 := filepath.Join(c.Scratch, fmt.Sprintf("c13_pair_%d_b.grits", j))
+	os.WriteFile(f1, []byte(p.Text), 0644)
+	os.WriteFile(f2, []byte(q.Text), 0644)
+	defer os.Remove(f1)
+	defer os.Remove(f2)
+	rep := 3
+	if c.Thorough() {
+		rep = 10
+	}
+	for _, gmp := range []int{4, 16} {
+		cmd := exec.Command(bin, "-mode", strconv.Itoa(cfg.Mode), "-monitor="+strconv.FormatBool(cfg.Monitor), "-procs", strconv.Itoa(gmp), "-repeat", strconv.Itoa(rep), "-with", f2, f1)
+		cmd.Env = append(os.Environ(), "GORACE=halt_on_error=1 exitcode=66")
+		var out, errb bytes.Buffer
+		cmd.Stdout, cmd.Stderr = &out, &errb
+		done := make(chan error, 1)
+		cmd.Start()
+		go func() { done <- cmd.Wait() }()
+		var err error
+		select {
+		case err = <-done:
+		case <-time.After(120 * time.Second):
+			cmd.Process.Kill()
+			<-done
+			r.Add("capped", 1)
+			r.Note("inconclusive: run exceeded the 120 s safety net")
+			continue
+		}
+		r.Add("evaluations", int64(2*rep))
+		so := out.String()
+		if strings.Contains(so, "NOT-ACCEPTED") {
+			r.Note("skipped: not accepted")
+			return
+		}
+		if strings.Contains(errb.String(), "WARNING: DATA RACE") {
+			fns := raceFn.FindAllStringSubmatch(errb.String(), 4)
+			var key []string
+			for _, m := range fns {
+				key = append(key, m[1])
+			}
+			k := "data race (two drivers in one process): " + strings.Join(key, " / ")
+			rp := errb.String()
+			if len(rp) > 3000 {
+				rp = rp[:3000]
+			}
+			r.Violation(harness.Violation{Key: k, Desc: fmt.Sprintf("%s together with %s [%s, GOMAXPROCS=%d]: %s", p.Name, q.Name, cfg, gmp, k),
+				Replay: map[string]interface{}{"kind": "race", "program_name": p.Name, "program": p.Text, "second_program_name": q.Name, "second_program": q.Text, "mode": cfg.Mode, "monitor": cfg.Monitor, "gomaxprocs": gmp, "report": rp}})
+			continue
+		}
+		if err != nil || !strings.Contains(so, "DONE") {
+			r.Note("run did not complete (exit error; see C01)")
+			continue
+		}
+		r.Add("distinct_nontrivial", 1)
+		r.Add("concurrent_pairs_completed", 1)
+	}
 }
